@@ -80,6 +80,59 @@ def offsets(n, parts):
     return sorted(set(i * n // parts for i in range(parts)))
 
 
+def rng_pos(grp, via, rf):
+    """deterministic spread of the unknown name's position inside its group over the or3 variants"""
+    return ["first", "middle", "last"][(len(grp) + len(via) + int(rf)) % 3]
+
+
+def known_conds(labels, rng):
+    out = [["a", ">", -1000], ["c", "<", 1000.0], ["a", "!=", 123456], ["c", ">=", -1000.0]]
+    if "k" in labels:
+        out.append(["k", "in", [0, 1, 2]])
+    rng.shuffle(out)
+    return out
+
+
+def place(conds, unknown, pos):
+    i = {"first": 0, "middle": len(conds) // 2 if len(conds) > 1 else 0, "last": len(conds)}[pos]
+    return conds[:i] + [unknown] + conds[i:]
+
+
+def make_filters(v, labels, rng):
+    """filters of the requested SHAPE; the unknown column sits at v['pos'] of group v['grp'] (None for the accepted control)"""
+    kc = known_conds(labels, rng)
+    unknown = ["zz", rng.choice(["==", ">", "in"]), 1]
+    if unknown[1] == "in":
+        unknown[2] = [1, 2]
+    bad = v["expect"] != "ok"
+    shape = v["shape"]
+    if shape == "flat":
+        return place(kc[:2], unknown, v["pos"]) if bad else kc[:2]
+    if shape == "and":
+        return [place(kc[:2], unknown, v["pos"])] if bad else [kc[:2]]
+    ng = 2 if shape == "or2" else 3
+    groups = [[kc[i % len(kc)], kc[(i + 1) % len(kc)]][: rng.choice([1, 2])] for i in range(ng)]
+    if bad:
+        gi = {"first": 0, "middle": 1, "last": ng - 1}[v["grp"]]
+        groups[gi] = place(groups[gi], unknown, v["pos"])
+    return groups
+
+
+def filter_names(f):
+    if not f:
+        return []
+    if isinstance(f[0], str):
+        return [f[0]]
+    return [n for x in f for n in filter_names(x)]
+
+
+def as_filters(f):
+    """JSON lists -> what the API takes: conditions are tuples, OR groups are lists of tuples"""
+    if f and isinstance(f[0], list) and f[0] and isinstance(f[0][0], str):
+        return [tuple(c) for c in f]
+    return [[tuple(c) for c in g] for g in f]
+
+
 def all_variants():
     """every (state, number of row groups, kind, position parameters) of the enumeration"""
     out = []
@@ -107,8 +160,24 @@ def all_variants():
             add("plain_dup", "validation")
             add("plain_pon_missing", "validation")
             add("plain_hasnulls_missing", "validation")
-            add("read_col", "validation")
-            add("read_filter", "validation")
+            if nrg == 2:
+                # reads: the number of row groups is irrelevant; every shape below is run in BOTH tiers
+                for via in ("to_pandas", "iter_row_groups", "head"):
+                    for pos in ("first", "middle", "last"):
+                        add("read_col", "validation", pos=pos, via=via)
+                add("read_index", "validation", shape="single", via="to_pandas")
+                add("read_index", "validation", shape="list", via="to_pandas")
+                for via in ("to_pandas", "iter_row_groups", "count"):
+                    for rf in (False, True):
+                        add("read_filter", "validation", shape="flat", pos="first", via=via, row_filter=rf)
+                        add("read_filter", "validation", shape="flat", pos="last", via=via, row_filter=rf)
+                        for pos in ("first", "middle", "last"):
+                            add("read_filter", "validation", shape="and", pos=pos, via=via, row_filter=rf)
+                        for grp in ("first", "last"):
+                            add("read_filter", "validation", shape="or2", grp=grp, pos="first", via=via, row_filter=rf)
+                        for grp in ("first", "middle", "last"):
+                            add("read_filter", "validation", shape="or3", grp=grp, pos=rng_pos(grp, via, rf), via=via, row_filter=rf)
+                        add("read_ok", "ok", shape="or2", via=via, row_filter=rf)
             add("codec_all", "late")
             if st == "simple":
                 add("append_ok_pon_ignored", "ok")
@@ -122,7 +191,6 @@ def all_variants():
                     add("overwrite_bad_value", "late", pos="middle", rg=rg)
                 add("overwrite_ok", "ok")
             add("append_ok", "ok")
-            add("read_ok", "ok")
             if st == "hive":
                 add("merge_bad_schema", "validation")
                 add("merge_ok", "ok")
@@ -198,15 +266,16 @@ def build(v, rng, sid):
             kw["partition_on"] = list(pon) + ["nope"]
         elif kind == "plain_hasnulls_missing":
             kw["has_nulls"] = ["a", "nope"]
-    elif kind in ("read_col", "read_filter", "read_ok"):
+    elif kind in ("read_col", "read_index", "read_filter", "read_ok"):
         api = "read"
         cols = [c for c in L.labels(frame0)]
         if kind == "read_col":
-            kw = {"columns": [cols[0], "zz"][::rng.choice([1, -1])]}
-        elif kind == "read_filter":
-            kw = {"filters": [["zz", "==", 1]], "row_filter": rng.choice([False, True])}
+            good = rng.sample(cols, 2)
+            kw = {"columns": place(good, "zz", v["pos"]), "via": v["via"]}
+        elif kind == "read_index":
+            kw = {"index": "zz" if v["shape"] == "single" else [cols[0], "zz"][::rng.choice([1, -1])], "via": v["via"]}
         else:
-            kw = {"columns": [cols[0], cols[-1]]}
+            kw = {"filters": make_filters(v, cols, rng), "row_filter": bool(v["row_filter"]), "via": v["via"]}
     elif kind in ("merge_bad_schema", "merge_ok"):
         # writer.merge(existing part files + one more file lying in the directory): refused when the schemas differ
         api = "merge"
@@ -294,8 +363,10 @@ def abstract_request(sc, pf):
     if sc["api"] == "merge":
         return ["merge", 0 if sc["variant"]["kind"] == "merge_bad_schema" else 1]      # the generator's intent: schemas differ / agree
     if sc["api"] == "read":
-        fcols = [f[0].encode() for f in kw.get("filters", [])]
-        return ["read", [c.encode() for c in kw.get("columns", [])], fcols]
+        fcols = [n.encode() for n in filter_names(kw.get("filters", []))]
+        idx = kw.get("index", [])
+        sel = list(kw.get("columns", [])) + ([idx] if isinstance(idx, str) else list(idx))
+        return ["read", [c.encode() for c in sel], fcols]
     if kw.get("append") == "overwrite":
         return ["overwrite", labs, [1] * len(labs)]
     if kw.get("append"):
@@ -400,9 +471,20 @@ def run_scenario(arg):
             try:
                 if sc["api"] == "read":
                     kw = dict(sc["kwargs"])
+                    via = kw.pop("via", "to_pandas")
                     if "filters" in kw:
-                        kw["filters"] = [tuple(f) for f in kw["filters"]]
-                    ParquetFile(work, open_with=rec.open_with).to_pandas(**kw)
+                        kw["filters"] = as_filters(kw["filters"])
+                    pfr = ParquetFile(work, open_with=rec.open_with)
+                    if via == "to_pandas":
+                        pfr.to_pandas(**kw)
+                    elif via == "iter_row_groups":
+                        list(pfr.iter_row_groups(**kw))
+                    elif via == "head":
+                        pfr.head(2, **kw)
+                    elif via == "count":
+                        pfr.count(**kw)
+                    else:
+                        raise KeyError(via)
                 elif sc["api"] == "merge":
                     from fastparquet.writer import merge
                     parts = sorted(os.path.join(work, r) for r in refs)
@@ -494,7 +576,8 @@ def run(ctx):
         by = {}
         for v in variants:
             by.setdefault((v["state"], v["kind"]), []).append(v)
-        variants = [v for _, vs in sorted(by.items()) for v in rng.sample(vs, min(len(vs), 4 if vs[0]["expect"] == "late" else 2))]
+        variants = [v for _, vs in sorted(by.items())
+                    for v in (vs if vs[0]["kind"].startswith("read_") else rng.sample(vs, min(len(vs), 4 if vs[0]["expect"] == "late" else 2)))]
     else:
         variants = variants * 3                   # three random frames / parameter draws per variant
     scs = [build(v, rng, i) for i, v in enumerate(variants)]
@@ -536,6 +619,8 @@ def run(ctx):
         if res.get("setup_fallback"):
             ctx.count("setup_fallback", res["setup_fallback"][:60])
         ctx.count("position", "%s/%s" % (v.get("pos"), v.get("rg")))
+        if v["kind"].startswith("read_"):
+            ctx.count("read_shape", "%s/%s/grp=%s/pos=%s/%s/row_filter=%s" % (v["kind"], v.get("shape"), v.get("grp"), v.get("pos"), v.get("via"), v.get("row_filter")))
         ctx.count("outcome", "%s/%s/%s" % (v["expect"], "raised" if res["raised"] else "returned", res["read"]))
         wrote = any(c[0] not in ("mkdir", "close") for c in res["trace"])
         for sym, text in judge(sc, res):
